@@ -245,7 +245,56 @@ func raceReadMetrics(m *ristretto.Metrics) uint64 {
 	return s
 }
 
+// raceMaxCostFlip: UpdateMaxCost is a lock-free store, so the two reads of MaxCost inside one
+// policy.Add (the "larger than the whole cache" test and roomLeft) can see different values.  One
+// goroutine flips MaxCost between 1 and 1000 as fast as it can while another admits a 500-cost item
+// into an EMPTY policy over and over: Add then meets "does not fit" with nothing to sample - it must
+// reject, not fail.  (A panic of the applier goroutine cannot be recovered: it ends the process and
+// the check reports the crash with this stream as the input.)
+func raceMaxCostFlip(r *Run) {
+	c, err := ristretto.NewCache(&ristretto.Config[uint64, uint64]{NumCounters: 100, MaxCost: 1000, BufferItems: 64, IgnoreInternalCost: true})
+	if err != nil {
+		r.Fail("*", "NewCache: "+err.Error(), "raceMaxCostFlip")
+		return
+	}
+	r.Cases++
+	var stop atomic.Bool
+	done := make(chan struct{})
+	go func() {
+		defer close(done)
+		for !stop.Load() {
+			c.UpdateMaxCost(1)
+			c.UpdateMaxCost(1000)
+		}
+	}()
+	sc := r.Scale
+	if sc < 1 {
+		sc = 1
+	}
+	if sc > 6 {
+		sc = 6
+	}
+	deadline := time.Now().Add(time.Duration(sc) * 600 * time.Millisecond)
+	n := 0
+	for time.Now().Before(deadline) {
+		k := uint64(n % 8)
+		c.Set(k, uint64(n+1), 500)
+		c.Wait()
+		c.Del(k)
+		c.Wait()
+		n++
+		if n%256 == 0 {
+			r.Tick()
+		}
+	}
+	stop.Store(true)
+	<-done
+	c.Close()
+	r.CountN("race_maxcost_flip_sets", n)
+}
+
 func streamCacheRace(r *Run) {
+	raceMaxCostFlip(r)
 	n := 2 + r.Scale
 	if n < 1 {
 		n = 1
